@@ -123,6 +123,9 @@ type c40World struct {
 	partitions map[string]int
 	groups     []string
 	refreshed  bool // partition counts changed after the config records were written
+	// group ids that own committed offsets but have no group record (record deleted afterwards, or
+	// offsets committed without a record ever being stored)
+	ghostGroups []string
 }
 
 func c40Populate(t *rapid.T) (*metadata.InMemoryStore, c40World) {
@@ -202,6 +205,27 @@ func c40Populate(t *rapid.T) (*metadata.InMemoryStore, c40World) {
 					_ = s.CommitConsumerOffset(ctx, gid, tp, int32(p), int64(rapid.IntRange(0, 500).Draw(t, "offset")), rapid.SampledFrom([]string{"", "meta"}).Draw(t, "offsetMeta"))
 				}
 			}
+		}
+	}
+	// Later history: some groups were deleted (DeleteConsumerGroup drops only the record, the committed
+	// offsets stay), and offsets were committed for a group that never stored a record.
+	if len(w.topics) > 0 {
+		kept := w.groups[:0:0]
+		for _, gid := range w.groups {
+			if rapid.IntRange(0, 3).Draw(t, "groupDeletedLater") == 2 {
+				tp := w.topics[0]
+				_ = s.CommitConsumerOffset(ctx, gid, tp, 0, int64(rapid.IntRange(1, 500).Draw(t, "ghostOffset")), "")
+				_ = s.DeleteConsumerGroup(ctx, gid)
+				w.ghostGroups = append(w.ghostGroups, gid)
+				continue
+			}
+			kept = append(kept, gid)
+		}
+		w.groups = kept
+		if rapid.IntRange(0, 3).Draw(t, "offsetsWithoutRecord") == 1 {
+			gid := "offsets-only"
+			_ = s.CommitConsumerOffset(ctx, gid, w.topics[len(w.topics)-1], 0, int64(rapid.IntRange(1, 500).Draw(t, "orphanOffset")), "meta")
+			w.ghostGroups = append(w.ghostGroups, gid)
 		}
 	}
 	// Later history: the partition count of some topics changed after their config record was
@@ -289,14 +313,23 @@ func c40Snapshot(s *metadata.InMemoryStore, w c40World) (string, error) {
 	}
 	sort.Strings(lines)
 	sb.WriteString(strings.Join(lines, "\n") + "\n")
-	groups, err := s.ListConsumerGroups(ctx)
-	if err != nil {
-		return "", err
-	}
+	// Groups are read one id at a time (every id the harness or a tool argument can name), NOT through
+	// ListConsumerGroups: that is the read the list_groups tool itself uses, and a listing that
+	// materialises records as a side effect would hide its own effect from a list-based comparison.
 	lines = lines[:0]
-	for _, g := range groups {
-		b, _ := proto.MarshalOptions{Deterministic: true}.Marshal(g)
-		lines = append(lines, fmt.Sprintf("group %q = %s", g.GetGroupId(), hex.EncodeToString(b)))
+	ids := map[string]bool{}
+	for _, list := range [][]string{c40GroupPool, c40TopicPool, c40Hostile, w.groups, w.ghostGroups} {
+		for _, id := range list {
+			ids[id] = true
+		}
+	}
+	for id := range ids {
+		g, err := s.FetchConsumerGroup(ctx, id)
+		b := []byte{}
+		if g != nil {
+			b, _ = proto.MarshalOptions{Deterministic: true}.Marshal(g)
+		}
+		lines = append(lines, fmt.Sprintf("group %q = present:%v %s %v", id, g != nil, hex.EncodeToString(b), err))
 	}
 	sort.Strings(lines)
 	sb.WriteString(strings.Join(lines, "\n") + "\n")
@@ -452,6 +485,9 @@ func TestVF_C40_Tools(t *testing.T) {
 		rec.set(inner)
 		if w.refreshed {
 			st.Class("partition-count-changed-after-config-was-stored")
+		}
+		if len(w.ghostGroups) > 0 {
+			st.Class("offsets-left-by-a-group-without-record")
 		}
 		ncalls := rapid.IntRange(1, 6).Draw(t, "calls")
 		for i := 0; i < ncalls; i++ {
